@@ -11,9 +11,10 @@ QUICKSET = [(n, o) for n in range(0, 25) for o in (0, 1, 7)] + [(32, 3), (40, 0)
 ALLSET = QUICKSET + [(n, o) for n in range(25, 65, 3) for o in (0, 3, 5)]
 OBLIGATIONS = [
     Ob("value_hash.intfloat", "C10/value_hash.c", desc="Int/Float: eq=>hash equal, alloc-class independence, assign, swap; full width", unwindset=US, checks=["bounds", "pointer"], tiers=Q, timeout=600),
-    Ob("string_hash.stack.len4", "C10/string_hash.c", defs=["SLEN=4", "LIGHT"], desc="String hash = hash_data over exactly len characters; same characters at another address are eq and hash the same; Type hash by name", unwindset=US + ["strlen.0:8", "strcpy.0:8", "harness.0:8", "harness.1:8"], checks=["bounds", "pointer"], tiers=Q, timeout=900, backend="z3"),
-    Ob("string_hash.len4", "C10/string_hash.c", defs=["SLEN=4"], desc="String hash/copy/assign/swap, content <= 4 bytes", unwindset=US + ["strlen.0:8", "strcpy.0:8", "harness.0:8", "harness.1:8"], checks=["bounds", "pointer"], tiers=("probe",), timeout=900, backend="z3"),
-    Ob("string_hash.len8", "C10/string_hash.c", defs=["SLEN=8"], desc="String hash/copy/assign/swap, content <= 8 bytes", unwindset=US + ["strlen.0:12", "strcpy.0:12", "harness.0:12", "harness.1:12"], unwind=12, checks=["bounds", "pointer"], tiers=("probe",), timeout=3600, backend="z3"),
+    Ob("string_hash.stack.len4.uf", "C10/string_hash.c", defs=["SLEN=4", "LIGHT", "UFHASH"], replace_calls=["hash_data:v_hash_data"], desc="String / Type Hash hand exactly the characters (terminator excluded) resp. the name to hash_data (uninterpreted here): same characters at another address hash the same", unwindset=US + ["strlen.0:8", "strcpy.0:8", "harness.0:8", "harness.1:8", "v_hash_data.0:18", "v_hash_data.1:18", "v_hash_data.2:18"], checks=["bounds", "pointer"], tiers=Q, timeout=900),
+    Ob("string_hash.stack.len4", "C10/string_hash.c", defs=["SLEN=4", "LIGHT"], desc="String hash = hash_data over exactly len characters; same characters at another address are eq and hash the same; Type hash by name", unwindset=US + ["strlen.0:8", "strcpy.0:8", "harness.0:8", "harness.1:8"], checks=["bounds", "pointer"], tiers=("thorough",), timeout=3600, backend="z3"),
+    Ob("string_hash.len4", "C10/string_hash.c", defs=["SLEN=4", "UFHASH"], replace_calls=["hash_data:v_hash_data"], desc="String hash/copy/assign/swap, content <= 4 bytes (hash_data uninterpreted)", unwindset=US + ["strlen.0:8", "strcpy.0:8", "harness.0:8", "harness.1:8", "v_hash_data.0:18", "v_hash_data.1:18", "v_hash_data.2:18", "memcpy.0:8", "memcpy.1:12"], checks=["bounds", "pointer"], tiers=("probe",), timeout=900),
+    Ob("string_hash.len8", "C10/string_hash.c", defs=["SLEN=8", "UFHASH"], replace_calls=["hash_data:v_hash_data"], desc="String hash/copy/assign/swap, content <= 8 bytes", unwindset=US + ["strlen.0:12", "strcpy.0:12", "harness.0:12", "harness.1:12"], unwind=12, checks=["bounds", "pointer"], tiers=("probe",), timeout=3600, backend="z3"),
 ] + [
     Ob("hash_data.len%d.off%d" % (n, o), "C10/hash_data.c", defs=["LEN=%d" % n, "OFF=%d" % o], desc="hash_data vs reference Murmur, %d bytes at alignment %d" % (n, o),
        unwind=max(n, 9) + 3, checks=["bounds", "pointer"], tiers=(Q if (n, o) in QUICKSET else ("thorough",)), timeout=1800, link=["Hash.c"], backend="z3")
